@@ -534,6 +534,20 @@ def World.rebuild (w : World) (p : PArgs) : World × Nat :=
 /-- `pickle.loads(pickle.dumps(stream))` -/
 def World.pickle (w : World) (s : Nat) : World × Nat := w.rebuild (w.pickleArgs s)
 
+/-! ## Slot-wise pickling (`utils/pickle.py` `cucumber`, `Chemical.__reduce__`, default `__slots__` pickling)
+
+`Thermo`, `Chemical`, reaction objects and the phase handles are pickled as "class + slot
+names + slot values" and rebuilt by `object.__new__` + `setattr` of exactly these slots.
+An object is a map from slot name to value (`none`: slot unset). -/
+
+/-- `get_state` / `get_chemical_data`: the listed slots with their values -/
+def getState {V : Type} (slots : List Nat) (obj : Nat → Option V) : List (Nat × Option V) :=
+  slots.map fun k => (k, obj k)
+
+/-- `new_from_state` / `unpickle_chemical`: a new object with these slots set -/
+def newFromState {V : Type} (st : List (Nat × Option V)) : Nat → Option V :=
+  fun k => (st.lookup k).join
+
 /-! ## Mutators (the "later changes" of the property) -/
 
 /-- `stream.imol[phase, chemical] = v` (the phase is ignored by a single-phase stream) -/
